@@ -32,7 +32,7 @@ static void check_kick(const std::string& kase, KickMap& km, psptr in, psptr out
             // bunch independent (RF) declare that through _lastbunch and share the table of bunch 0 as well
             float a = yaxis ? off[std::min(b, (unsigned)km._lastbunch) * n + r] : off[r];
             if (!(std::fabs(a) <= lim)) continue;
-            int k = (int)std::floor(a);
+            int k = (int)std::floor(((float)(n / 2) + a) - (float)(n / 2));   // displacement as resolved in single precision
             int lo = (int)c - k - (int)(it - 1) + cc, hi = (int)c - k + cc;   // destination cells of source c
             bool interior = c >= 1 && c + 2 <= n && lo >= 1 && hi <= (int)n - 2;
             double s = 0; bool fin = true;
@@ -58,7 +58,7 @@ static void check_kick(const std::string& kase, KickMap& km, psptr in, psptr out
         for (unsigned b = 0; b < nb; b++) for (unsigned r = 0; r < n; r++) {
             float a = yaxis ? off[std::min(b, (unsigned)km._lastbunch) * n + r] : off[r];
             if (!(std::fabs(a) <= lim)) continue;
-            int k = (int)std::floor(a);
+            int k = (int)std::floor(((float)(n / 2) + a) - (float)(n / 2));   // displacement as resolved in single precision
             for (unsigned c = 1; c + 2 <= n; c++) {
                 int lo = (int)c - k - (int)(it - 1) + cc, hi = (int)c - k + cc;
                 if (lo < 1 || hi > (int)n - 2) continue;
